@@ -166,11 +166,13 @@ def history(ops):
     return True, 'ok'
 
 
-def check_cache(o0: int, t0: int, o1: int, t1: int, o2: int, t2: int) -> bool:
+def check_cache(o0: int, t0: int, o1: int, t1: int, o2: int, t2: int, o3: int) -> bool:
     """
-    pre: 0 <= o0 < NOPS and 0 <= o1 < NOPS and 0 <= o2 < NOPS
+    pre: 0 <= o0 < NOPS and 0 <= o1 < NOPS and 0 <= o2 < NOPS and 0 <= o3 < NOPS
     pre: 0 <= t0 < 3 and 0 <= t1 < 3 and 0 <= t2 < 3
     pre: o0 == V.SHARD[0]
+    pre: V.SHARD[1] >= 4 or o3 == 0
+    pre: V.SHARD[2] < 0 or o1 == V.SHARD[2]
     post: _
     """
     V.enter()
@@ -180,6 +182,8 @@ def check_cache(o0: int, t0: int, o1: int, t1: int, o2: int, t2: int) -> bool:
         ops.append((V.concretize(o1, NOPS), V.concretize(t1, 3)))
     if n >= 3:
         ops.append((V.concretize(o2, NOPS), V.concretize(t2, 3)))
+    if n >= 4:
+        ops.append((V.concretize(o3, NOPS), 0))        # (a fourth modification, of the first target only)
     with V.fast():
         ok, fact = history(ops)
     return V.verdict(ok, fact)
@@ -260,7 +264,11 @@ def PLAN(tier):
     q = tier == 'quick'
     P = []
     for o in range(NOPS):
-        P.append(dict(fn='check_cache', shard=[o, 3], timeout=300 if q else 1500))
+        if q:
+            P.append(dict(fn='check_cache', shard=[o, 3, -1], timeout=300))
+        else:
+            for o1 in range(NOPS):
+                P.append(dict(fn='check_cache', shard=[o, 4, o1], timeout=1500))
     for k in range(NKINDS):
         P.append(dict(fn='check_exact', shard=[k], timeout=200 if q else 900))
     return P
